@@ -11,6 +11,7 @@
    an operation that cannot complete on a healthy device is C06.Stuck, or the known finding K1 when the trace
    carries K1's history signature.
 """
+import os
 import random
 
 from .. import tlc, tour
@@ -533,6 +534,59 @@ def interleaved_generators(ctx, rng):
         sess.close_loop()
         return out
 
+    def cancel_anywhere(bop, k):
+        """Two tasks on one device; task B is cancelled at the k-th turn of the event loop at which the byte streams are at a message
+        boundary in both directions (so the cancellation itself breaks no framing) - wherever B happens to be suspended then, not
+        only inside a transport call.  Task A must still complete with its own output."""
+        import asyncio
+        dev = simdev.SimDevice(chooser=simdev.Seeded(k), seed=k)
+        dev.shell_scripts[b'shell:a'] = [b'A1;', b'A2;', b'A3;']
+        dev.shell_scripts[b'shell:b'] = [b'B1;', b'B2;']
+        dev.fs.add('/f', b'x' * 9000)
+        sess = env.Session('async', dev)
+        sess.core.yield_io = True
+        sess.call('connect')
+        out = dict(a=None, b=None, cancelled_at=None)
+        d = sess.device
+        d._local_id_lock, d._io_manager._transport_lock, d._io_manager._store_lock = asyncio.Lock(), asyncio.Lock(), asyncio.Lock()     # two tasks: real locks
+
+        async def main():
+            async def A():
+                out['a'] = await d.shell('a', decode=False, read_timeout_s=2.0)
+
+            async def B():
+                if bop == 'shell':
+                    out['b'] = await d.shell('b', decode=False, read_timeout_s=2.0)
+                elif bop == 'stat':
+                    out['b'] = await d.stat('/f', read_timeout_s=2.0)
+                else:
+                    import io
+                    await d.pull('/f', io.BytesIO(), read_timeout_s=2.0)
+            ta, tb = asyncio.ensure_future(A()), asyncio.ensure_future(B())
+
+            async def canceller():
+                n_ = 0
+                while not tb.done():
+                    await asyncio.sleep(0)
+                    if not (sess.core.cur or sess.core.cur_rest or sess.core.hbuf):
+                        n_ += 1
+                        if n_ >= k:
+                            out['cancelled_at'] = n_
+                            tb.cancel()
+                            return
+            tc = asyncio.ensure_future(canceller())
+            for t_ in (ta, tb, tc):
+                try:
+                    await t_
+                except asyncio.CancelledError:
+                    pass
+                except Exception as e:  # noqa
+                    out.setdefault('errors', []).append((('a', 'b', 'c')[(ta, tb, tc).index(t_)], type(e).__name__))
+        sess.rebind_clock()
+        sess.loop.run_until_complete(main())
+        sess.close_loop()
+        return out
+
     def two_devices(mode, k):
         """Two device objects alive in one process, each with its own device; both number their streams from 1, so their (remote id,
         local id) pairs coincide.  Nothing one object reads or parks may reach the other."""
@@ -586,6 +640,21 @@ def interleaved_generators(ctx, rng):
             want = {'A': [b'A1;', b'A2;', b'A3;'], 'B': [b'B1;', b'B2;', b'B3;'], 'wholeA': b'Aw1;Aw2;', 'wholeB': b'Bw1;Bw2;'}
             if out != want:
                 ctx.violation('C06.SameAsAlone', dict(kind='two device objects alive at once, streams with coinciding ids', mode=mode, variant=k, observed={a: repr(b)[:100] for a, b in out.items()}))
+    ncancel = 0
+    for bop in ('shell', 'stat', 'pull'):
+        for k in range(1, 40 if ctx.quick else 120):
+            out = cancel_anywhere(bop, k)
+            if os.environ.get('DBG06'):
+                print(bop, k, out)
+            n += 1
+            ncancel += 1 if out['cancelled_at'] else 0
+            if out['a'] != b'A1;A2;A3;' or any(e_[0] == 'a' for e_ in out.get('errors', [])):
+                ctx.violation('C06.SameAsAlone', dict(kind='another task on the device is cancelled at a message boundary, wherever it is suspended', cancelled_operation=bop, loop_turn=k,
+                                                      observed={a: repr(b)[:120] for a, b in out.items()}))
+                break
+            if not out['cancelled_at']:
+                break             # B finished before the k-th turn: later turns do not exist
+    ctx.extra['cancellations_at_arbitrary_suspension_points'] = ncancel
     for mode in ('sync', 'async'):
         for k in range(4):
             out = strays_before_wanted(mode, k)
